@@ -236,6 +236,23 @@ type Fixture struct {
 	Reps    int
 	Owners  []fakecluster.SlotOwner
 	nonce   int
+	lastUse int64
+}
+
+var useClock int64
+
+// shardPick returns n entries of all, chosen by VERIF_SEED and the shard number, so that each shard process
+// works with a few configurations (few proxies alive) while the shards together cover the whole list.
+func shardPick[T any](all []T, n int) []T {
+	if n >= len(all) {
+		return all
+	}
+	base := envInt("VERIF_SEED", 1)*7 + envInt("VERIF_SHARD", 0)*n
+	out := make([]T, 0, n)
+	for i := 0; i < n; i++ {
+		out = append(out, all[(base+i)%len(all)])
+	}
+	return out
 }
 
 var (
@@ -266,9 +283,18 @@ func (f *Fixture) Close() {
 // getFixture returns a healthy fixture for (cfg, masters, replicas per master), starting one if needed.
 // cfg.Servers is filled in. A fixture that failed its last case must be dropped with dropFixture.
 func getFixture(prop string, cfg sut.Config, masters, reps int) *Fixture {
-	key := fmt.Sprintf("%s|%d|%d|%s", prop, masters, reps, cfg.Key())
+	return getFixtureV(prop, cfg, masters, reps, "")
+}
+
+// getFixtureV is getFixture with a topology variant: "" = every slot owned; "gap" = slots 16000-16383 unowned.
+func getFixtureV(prop string, cfg sut.Config, masters, reps int, variant string) *Fixture {
+	key := fmt.Sprintf("%s|%d|%d|%s|%s", prop, masters, reps, variant, cfg.Key())
 	fixMu.Lock()
 	f := fixtures[key]
+	useClock++
+	if f != nil {
+		f.lastUse = useClock
+	}
 	fixMu.Unlock()
 	if f != nil {
 		if f.Proxy.Alive() {
@@ -276,12 +302,35 @@ func getFixture(prop string, cfg sut.Config, masters, reps int) *Fixture {
 		}
 		dropFixture(f)
 	}
+	// every proxy holds an inotify instance (128 per user on this system), so only a few fixtures stay alive
+	for {
+		fixMu.Lock()
+		var lru *Fixture
+		if len(fixtures) >= envInt("VERIF_MAX_FIXTURES", 3) {
+			for _, x := range fixtures {
+				if lru == nil || x.lastUse < lru.lastUse {
+					lru = x
+				}
+			}
+		}
+		fixMu.Unlock()
+		if lru == nil {
+			break
+		}
+		dropFixture(lru)
+		evidence.For(prop).Add("fixtures_evicted", 1)
+	}
 	var lastErr error
-	for attempt := 0; attempt < 3; attempt++ {
-		f, lastErr = newFixture(cfg, masters, reps, 0)
+	for attempt := 0; attempt < 4; attempt++ {
+		if attempt > 0 {
+			time.Sleep(time.Duration(attempt) * 700 * time.Millisecond)
+		}
+		f, lastErr = newFixture(cfg, masters, reps, 0, variant)
 		if lastErr == nil {
 			f.Key = key
 			fixMu.Lock()
+			useClock++
+			f.lastUse = useClock
 			fixtures[key] = f
 			restarts++
 			fixMu.Unlock()
@@ -306,12 +355,17 @@ func dropFixture(f *Fixture) {
 }
 
 // newFixture starts a cluster of masters*(1+reps)+spare nodes with an even topology and a proxy.
-func newFixture(cfg sut.Config, masters, reps, spare int) (*Fixture, error) {
+func newFixture(cfg sut.Config, masters, reps, spare int, variant string) (*Fixture, error) {
 	cl, err := fakecluster.New(masters*(1+reps) + spare)
 	if err != nil {
 		return nil, err
 	}
 	topo := fakecluster.EvenTopo(cl, masters, reps)
+	if variant == "gap" {
+		// the last master gives up 16000-16383: those slots are owned by nobody
+		last := &topo.Nodes[masters-1]
+		last.Slots[len(last.Slots)-1][1] = 15999
+	}
 	topo.Install(cl)
 	topo.SetInfoFromTopo(cl)
 	cl.SetPassword(cfg.Password)
